@@ -514,3 +514,78 @@ Proof.
   inversion H; subst m'; clear H.
   destruct (run_all_profile2 k t tis (init_pstate m) st g Hok Hno Hg Ht E) as (g' & A & B & _). eauto.
 Qed.
+
+(* ================================================================== *)
+(* Complement of insert_common_new_profile: what still reads the OLD tensor *)
+Definition stayed (tid : Z) (cs : list Z) (ko : Z * op) : Z * list bool :=
+  (o_uid (snd ko), if memZ (fst ko) cs then map (fun _ => false) (o_ins (snd ko))
+                   else map (Z.eqb tid) (o_ins (snd ko))).
+Definition stayed_profile (tid : Z) (cs : list Z) (g : subgraph) : list (Z * list bool) :=
+  map (stayed tid cs) (filter (fun ko => is_original (snd ko)) (enumerate (sg_ops g))).
+
+Lemma slots_old_rewire o old new : new <> old -> slots old (rewire_op o old new) = (o_uid o, map (fun _ => false) (o_ins o)).
+Proof.
+  intros Hne. unfold slots, rewire_op. cbn [o_uid o_ins]. f_equal. rewrite map_map.
+  apply map_ext. intros y. destruct (Z.eqb_spec y old) as [->|Hy].
+  - destruct (Z.eqb_spec old new); [congruence|reflexivity].
+  - destruct (Z.eqb_spec old y); [congruence|reflexivity].
+Qed.
+
+Lemma pointwise_old_profile old new cs : new <> old -> forall (l l' : list op) i0,
+  (forall k, nth_opt l' k = option_map (fun o => if memZ (i0 + Z.of_nat k) cs then rewire_op o old new else o)
+                                       (nth_opt l k)) ->
+  map (slots old) (filter is_original l') =
+  map (stayed old cs) (filter (fun ko => is_original (snd ko)) (enumerate_from i0 l)).
+Proof.
+  intros Hne. induction l as [|o l IH]; intros l' i0 H.
+  - destruct l' as [|o' l']; [reflexivity|]. specialize (H 0%nat). discriminate.
+  - destruct l' as [|o' l']; [specialize (H 0%nat); discriminate|].
+    pose proof (H 0%nat) as H0. cbn [nth_opt option_map] in H0. rewrite Z.add_0_r in H0. inversion H0 as [E0].
+    cbn [enumerate_from filter snd].
+    assert (Htl : map (slots old) (filter is_original l') =
+                  map (stayed old cs) (filter (fun ko => is_original (snd ko)) (enumerate_from (i0 + 1) l))).
+    { apply IH. intros k. specialize (H (S k)). cbn [nth_opt] in H. rewrite H.
+      replace (i0 + Z.of_nat (S k)) with (i0 + 1 + Z.of_nat k) by lia. reflexivity. }
+    destruct (memZ i0 cs) eqn:Em.
+    + rewrite is_original_rewire. destruct (is_original o); cbn [map]; [|exact Htl].
+      rewrite Htl. f_equal. unfold stayed. cbn [fst snd]. rewrite Em. apply slots_old_rewire. exact Hne.
+    + destruct (is_original o); cbn [map]; [|exact Htl].
+      rewrite Htl. f_equal. unfold stayed. cbn [fst snd]. rewrite Em. reflexivity.
+Qed.
+
+Lemma stayed_ext tid cs cs' l : forall i0, 0 <= i0 ->
+  (forall k, 0 <= k -> memZ k cs' = memZ k cs) ->
+  map (stayed tid cs') (filter (fun ko => is_original (snd ko)) (enumerate_from i0 l)) =
+  map (stayed tid cs) (filter (fun ko => is_original (snd ko)) (enumerate_from i0 l)).
+Proof.
+  induction l as [|o l IH]; intros i0 H0 H; [reflexivity|]. cbn [enumerate_from filter snd].
+  destruct (is_original o); cbn [map]; [f_equal|]; try (apply IH; [lia|exact H]).
+  unfold stayed. cbn [fst snd]. rewrite (H i0 H0). reflexivity.
+Qed.
+
+Lemma insert_common_old_profile q codes bufs g tid producer cs ps codes' bufs' g' info :
+  0 <= tid < ntens g -> Forall (fun c => c = -1 \/ 0 <= c) cs ->
+  insert_common q codes bufs g tid producer cs ps = Ok (codes', bufs', g', info) ->
+  readers_profile tid g' = stayed_profile tid cs g.
+Proof.
+  intros Htid Hcs H. unfold insert_common in H.
+  destruct (add_op_code _ codes) as [cidx cds].
+  destruct (get_tensor g tid) as [t0|]; cbn [bind] in H; [|discriminate].
+  match type of H with bind ?m _ = _ => destruct m as [[b2 g2]|] eqn:Q end; cbn [bind] in H; [|discriminate].
+  destruct (py_min cs); cbn [bind] in H; [|discriminate].
+  match type of H with bind ?m _ = _ => destruct m as [ops'|] eqn:R end; cbn [bind] in H; [|discriminate].
+  destruct (Z.max (producer + 1) _ <? 0); [discriminate|]. inversion H; subst; clear H.
+  destruct (quantize_tensor_shape _ _ _ _ _ _ Q) as (Hops & _). cbn [sg_ops] in Hops.
+  unfold readers_profile, stayed_profile. cbn [sg_ops].
+  rewrite filter_insert_at by reflexivity. rewrite Hops in R. rewrite rewire_drop_absent in R.
+  set (cs' := filter (fun c => negb (Z.eqb c (-1))) cs) in *.
+  assert (Hcs' : Forall (fun c => 0 <= c) cs').
+  { unfold cs'. apply Forall_forall. intros c Hc. apply filter_In in Hc. destruct Hc as [Hc Hn].
+    rewrite Forall_forall in Hcs. destruct (Hcs c Hc) as [->|]; [discriminate|assumption]. }
+  assert (Hne : lenZ (sg_tensors g) <> tid) by (unfold ntens in Htid; lia).
+  pose proof (rewire_fun cs' _ _ _ _ Hne Hcs' R) as HF.
+  unfold enumerate.
+  rewrite (pointwise_old_profile tid (lenZ (sg_tensors g)) cs' Hne (sg_ops g) ops' 0).
+  - apply stayed_ext; [lia|]. intros k Hk. unfold cs'. apply memZ_filter_absent. exact Hk.
+  - intros k. rewrite Z.add_0_l. apply HF.
+Qed.
